@@ -83,7 +83,8 @@ def base_strings(r: random.Random, n: int) -> list[str]:
 
 
 SEM_IDS = ["rc", "rc1", "rc.1", "RC1", "alpha", "alpha.1", "beta.2", "1", "0", "10", "2", "x-y", "a.b.c", "pre.10", "pre.9", "Alpha1", "rc-1", "-1", "0a", "dev",
-           "9", "99", "10.1", "2.0", "rc9", "rc.9", "rc99", "a9b", "rc.1.9", "x-9-y", "1a", "pre", "c.2", "preview-2", "20", "1.9"]
+           "9", "99", "10.1", "2.0", "rc9", "rc.9", "rc99", "a9b", "rc.1.9", "x-9-y", "1a", "pre", "c.2", "preview-2", "20", "1.9",
+           "post", "post.1", "post1", "r1", "rev.3", "R1", "Post.2", "-2", "r", "rev"]
 SEM_BUILDS = [None, "build.1", "001", "a-b.c", "99"]
 
 
